@@ -980,8 +980,9 @@ def rule_records(repo, col):
                 for b in n.body):
             accept.append(unparse(n.test))
     final = [n for n in f.body if isinstance(n, ast.Return)]
-    ok = len(accept) == 2 and any('is None' in a for a in accept) and \
+    ok = 1 <= len(accept) <= 2 and any('is None' in a for a in accept) and \
         any('isinstance' in a and 'dict' in a for a in accept) and \
+        not any(' and ' in a for a in accept) and \
         final and not (isinstance(final[-1].value, ast.Constant) and
                        final[-1].value.value == '')
     col.check(bool(ok), rule, VAL, 'TableValidator._valid_metadata',
